@@ -95,6 +95,35 @@ def semantic_oracle(ctx, sc):
             if not feasible(r):
                 ctx.violation("compound:empty_kept", "an empty alternative was kept in the intersection", info)
                 break
+    # a side with NO alternative (what a merge of incompatible contracts leaves behind) contains no behaviour: intersecting with it,
+    # from either side, must give no alternative
+    for key in ("a1", "g1"):
+        if key not in nests:
+            continue
+        kind, empty_side, _ = pp.observe(lambda: cc.mknested([], False))
+        if kind != "ok":
+            break
+        for left, right, tag in ((nests[key], empty_side, "x & none"), (empty_side, nests[key], "none & x")):
+            for force in (False, True):
+                kind, v, _ = pp.observe(lambda: left.intersect(right, force))
+                if kind == "ok" and cc.nested_of(v):
+                    ctx.violation("compound:intersection_with_nothing_not_empty", "intersecting with a nested list without alternatives kept alternatives",
+                                  {"order": tag, "force_empty_intersection": force, "alternatives": [[cf.jsonable_term(t) for t in a] for a in sc[key]],
+                                   "result": [[cf.jsonable_term(t) for t in a] for a in cc.nested_of(v)]})
+    # ... and at contract level: merging with a compound contract one of whose sides has no alternative gives no alternative there
+    try:
+        ka = cc.mkcompound({"a": sc["a1"], "g": sc["g1"], "i": sc["i"], "o": sc["o"]})
+        for side in ("a", "g"):
+            hollow = cc.mkcompound({"a": [] if side == "a" else sc["a2"], "g": [] if side == "g" else sc["g2"], "i": sc["i"], "o": sc["o"]})
+            for left, right, tag in ((ka, hollow, "c.merge(hollow)"), (hollow, ka, "hollow.merge(c)")):
+                kind, v, _ = pp.observe(lambda: left.merge(right))
+                if kind == "ok":
+                    got = cc.nested_of(v.a if side == "a" else v.g)
+                    if got:
+                        ctx.violation("compound:merge_with_nothing_not_empty", "merging with a compound contract whose " + ("assumptions" if side == "a" else "guarantees") +
+                                      " have no alternative kept alternatives on that side", {"order": tag, "result_side": [[cf.jsonable_term(t) for t in a] for a in got]})
+    except ValueError:
+        pass
     # <= : True only if the left union is contained in the right union
     for p, q in (("a1", "a2"), ("g1", "g2"), ("g2", "g1")):
         if p not in nests or q not in nests:
